@@ -74,7 +74,8 @@ func (d *Decorator) ParseFile(filename string, src interface{}, mode parser.Mode
 	// If ParseFile returns an error and also a non-nil file, the errors were just parse errors so
 	// we should continue decorating the file and return the error.
 	f, perr := parser.ParseFile(d.Fset, filename, src, mode|parser.ParseComments)
-	if perr != nil && f == nil {
+	if perr != nil && (f == nil || !f.Package.IsValid()) {
+		// no package clause was found, so there is nothing positioned in the file set to decorate
 		return nil, perr
 	}
 
